@@ -256,7 +256,14 @@ def main(tier):
     parts = common.pmap(run_unit, units, init=_init)
     for p in parts:
         rep.merge(p)
-    rep.set('traces_validated_against_impl', 0)
+    from .. import conform
+    sd = [x for x in seeds.seeds(rep.tier, rep.seed)
+          if not x[0].startswith('typed')]
+    conform.graph_conformance(rep, sd[(rep.seed + 3) % 9::9]
+                              if rep.tier != 'thorough' else sd[1::4],
+                              ('hierarchical', ))
+    rep.set('traces_validated_against_impl',
+            rep.coverage.get('traces_validated_against_impl', 0))
     rep.set('evaluations', rep.coverage.get('proposals', 0))
     rep.set('distinct_nontrivial', rep.coverage.get('states', 0))
     rep.set('seeds', len(seeds.seeds(rep.tier, rep.seed)))
